@@ -1,5 +1,6 @@
 import Pxv.Lemmas.Order
 import Pxv.Lemmas.Stalemate
+import Pxv.Lemmas.StalemateInClass
 /-!
 C02 — rule-abiding blueprints are accepted: the ordering step never gets stuck.
 
@@ -294,7 +295,7 @@ example : let g := exStuck
     noConflict g = false ∧ order g = none := by decide
 
 
-/-! ### the forward pass `ordering_stalemates` (repo commit 3ac248c)
+/-! ### the forward pass `ordering_stalemates` (repo commit 437e3c1)
 
 Before that repair nothing guaranteed the hypothesis of `order_never_stuck_of_run`: `complex_borrow_check` releases the
 borrows of a node when it has visited it, whether or not the node's own dependencies can be scheduled, so a cycle of
@@ -306,7 +307,7 @@ of the borrow checker now plays the ordering forward; these theorems are about i
 /-- **no stalemate, no panic**: when the forward pass finds no stalemate in a well-formed acyclic call graph, a complete
     legal order exists and the ordering step — whatever it places first — finds one. -/
 theorem no_stalemate_order {g : Graph} {r : Nat → Nat} (hwf : g.wellFormed = true) (hr : Ranked g r)
-    (h : findStalemate g [] = none) :
+    (h : findStalemate g [] = []) :
     ∃ σ, order g = some σ ∧ isRun g σ = true ∧ σ.length = g.size := by
   obtain ⟨final, hrun, hb, hfr⟩ := findStalemateLoop_none (g := g) (g.size + 1) [] (by simp [isRunFrom])
     (by simp) h
@@ -327,19 +328,52 @@ theorem stalemates_resolved_order {g g' : Graph} {r : Nat → Nat} (hwf : g.well
   obtain ⟨_, hwf', ⟨r', hr'⟩, hnone⟩ := resolveLoop_sound _ g [] [] g' h hwf ⟨r, hr⟩
   exact no_stalemate_order hwf' hr' (hnone rfl)
 
-/-- a diagnostic is only reported for a stuck node none of whose contended inputs may be cloned. -/
+/-- a diagnostic is reported only when no contended input of any stuck node may be cloned: as long as one may, the pass
+    clones instead (for the first stuck node that has one). -/
 theorem stalemate_reported_only_if_not_cloneable (fuel : Nat) (g : Graph) (reported : List Nat) (ds : List OsDiag)
-    (n : Nat) (bl : List Nat) (h : findStalemate g reported = some (n, bl))
-    (hc : ∃ b ∈ bl, (g.node b).cloneable = true) :
-    resolveLoop (fuel + 1) g reported ds =
-      resolveLoop fuel (insertClone g ((bl.find? (fun b => (g.node b).cloneable)).getD 0) n).1 reported ds := by
-  obtain ⟨b, hb, hcb⟩ := hc
-  simp only [resolveLoop, h]
-  cases hf : bl.find? (fun b => (g.node b).cloneable) with
-  | some b' => simp
-  | none =>
-    rw [List.find?_eq_none] at hf
-    exact absurd hcb (by simpa using hf b hb)
+    (hc : ∃ s ∈ findStalemate g reported, ∃ b ∈ s.2, (g.node b).cloneable = true) :
+    ∃ n b, (g.node b).cloneable = true ∧
+      resolveLoop (fuel + 1) g reported ds = resolveLoop fuel (insertClone g b n).1 reported ds := by
+  obtain ⟨s, hs, b, hb, hcb⟩ := hc
+  simp only [resolveLoop]
+  cases hfs : findStalemate g reported with
+  | nil => rw [hfs] at hs; cases hs
+  | cons s0 rest =>
+    obtain ⟨n0, bl0⟩ := s0
+    simp only
+    cases hf : ((n0, bl0) :: rest).findSome?
+        (fun s => (s.2.find? (fun b => (g.node b).cloneable)).map (fun b => (s.1, b))) with
+    | some nb =>
+      obtain ⟨s', _, hf'⟩ := List.exists_of_findSome?_eq_some hf
+      simp only [Option.map_eq_some_iff] at hf'
+      obtain ⟨b', hfind, rfl⟩ := hf'
+      exact ⟨s'.1, b', by simpa using List.find?_some hfind, rfl⟩
+    | none =>
+      exfalso
+      rw [List.findSome?_eq_none_iff] at hf
+      have := hf s (by rw [← hfs]; exact hs)
+      simp only [Option.map_eq_none_iff] at this
+      rw [List.find?_eq_none] at this
+      have := this b hb
+      simp [hcb] at this
+
+/-- the mirrored pass is total: with the fuel `resolveFuel` (2·|edges| + |nodes| + 1 rounds: every round removes a `move`
+    edge out of a clone-if-necessary value or reports one more node) it never gives up. -/
+theorem stalemates_pass_terminates {g : Graph} (hwf : g.wellFormed = true) :
+    ∀ d ∈ (resolveStalemates g).2, d ≠ .outOfFuel :=
+  resolve_never_out_of_fuel hwf
+
+/-- **C02 (last pass, in class)**: a well-formed, acyclic, capture-free call graph in which every value that is both
+    taken by value and borrowed is Copy or clone-if-necessary is accepted by `ordering_stalemates` without a diagnostic,
+    and what the pass hands on can be ordered. -/
+theorem inClass_accepted_and_ordered {g : Graph} {r : Nat → Nat} (hwf : g.wellFormed = true) (hr : Ranked g r)
+    (hcf : captureFree g = true) (hcc : ContendedCloneable g) :
+    (resolveStalemates g).2 = [] ∧
+      ∃ σ, order (resolveStalemates g).1 = some σ ∧ isRun (resolveStalemates g).1 σ = true ∧
+        σ.length = (resolveStalemates g).1.size := by
+  have h := resolve_inClass_silent hwf hcf hcc
+  refine ⟨h, ?_⟩
+  exact stalemates_resolved_order (g' := (resolveStalemates g).1) hwf hr (by rw [← h])
 
 -- The witness: V1 = 0, V2 = 1, c1(V1) = 2, b2(&V2, c1) = 3, c2(V2) = 4, b1(&V1, c2) = 5, handler(b2, b1) = 6.
 def exCross (cloneable : Bool) : Graph :=
@@ -347,7 +381,7 @@ def exCross (cloneable : Bool) : Graph :=
     edges := [⟨0, 2, .move⟩, ⟨1, 3, .shared⟩, ⟨2, 3, .move⟩, ⟨1, 4, .move⟩, ⟨0, 5, .shared⟩, ⟨4, 5, .move⟩,
               ⟨3, 6, .move⟩, ⟨5, 6, .move⟩] }
 -- b1 < c1 < b2 < c2 < b1: no order exists (the compiler panicked here), the forward pass names the stuck node
-example : order (exCross false) = none ∧ findStalemate (exCross false) [] = some (2, [0]) := by decide
+example : order (exCross false) = none ∧ findStalemate (exCross false) [] = [(2, [0]), (4, [1])] := by decide
 -- not cloneable: reported, once
 example : (resolveStalemates (exCross false)).2 = [.stalemate 2 [0]] := by decide
 -- clone-if-necessary: one clone of V1 (node 7) for c1 breaks the cycle, nothing is reported, and the result can be ordered
@@ -355,9 +389,17 @@ example : (resolveStalemates (exCross true)).2 = [] ∧
     (resolveStalemates (exCross true)).1.edges = [⟨1, 3, .shared⟩, ⟨2, 3, .move⟩, ⟨1, 4, .move⟩, ⟨0, 5, .shared⟩,
       ⟨4, 5, .move⟩, ⟨3, 6, .move⟩, ⟨5, 6, .move⟩, ⟨0, 7, .shared⟩, ⟨7, 2, .move⟩] ∧
     order (resolveStalemates (exCross true)).1 = some [0, 1, 7, 2, 3, 4, 5, 6] := by decide
+-- only the second value may be cloned: the pass clones it for the second stuck node instead of reporting the first
+def exCross2 : Graph := { exCross false with nodes := [{}, { cloneable := true }, {}, {}, {}, {}, {}] }
+example : (resolveStalemates exCross2).2 = [] ∧ (order (resolveStalemates exCross2).1).isSome = true := by decide
 -- and the hypotheses of `stalemates_resolved_order` are met by it
-example : (exCross true).wellFormed = true ∧ Ranked (exCross true) (fun n => n) := by
-  refine ⟨by decide, ?_⟩
+example : (exCross true).wellFormed = true ∧ captureFree (exCross true) = true ∧ ContendedCloneable (exCross true) ∧
+    Ranked (exCross true) (fun n => n) := by
+  refine ⟨by decide, by decide, ?_, ?_⟩
+  · intro p hp
+    have : p < 7 := hp
+    have hcases : p = 0 ∨ p = 1 ∨ p = 2 ∨ p = 3 ∨ p = 4 ∨ p = 5 ∨ p = 6 := by omega
+    rcases hcases with rfl | rfl | rfl | rfl | rfl | rfl | rfl <;> decide
   intro e he
   simp [exCross] at he
   rcases he with rfl | rfl | rfl | rfl | rfl | rfl | rfl | rfl <;> decide
